@@ -428,6 +428,21 @@ Definition kron_csr (l r : csr) : csr :=
             map (fun pb => (fst pa * s_nc r + fst pb, cmul (snd pa) (snd pb))) rb) ra)
           (s_rows r)) (s_rows l) |}.
 
+(* reshape.pyx::column_unstack_dense(matrix, rows, inplace): the column's
+   buffer read as a Fortran-ordered rows x cols matrix.  With inplace and a
+   Fortran-flagged column the shape is changed in place; otherwise (also for a
+   C-flagged column with inplace, after a warning) a new Fortran-ordered
+   matrix is allocated and the buffer memcpy'd.  Either way the returned
+   object is flagged Fortran, whatever the flag of the column. *)
+Definition column_unstack_dense (d : dense) (rows : nat) : option dense :=
+  if negb (d_nc d =? 1) || (rows =? 0) || negb (d_nr d mod rows =? 0) then None
+  else Some {| d_nr := rows; d_nc := d_nr d / rows; d_fortran := true; d_data := d_data d |}.
+(* column_unstack_csr = reshape_csr(matrix, cols, rows).transpose() *)
+Definition column_unstack_csr (m : csr) (rows : nat) : option csr :=
+  if negb (s_nc m =? 1) || (rows =? 0) || negb (s_nr m mod rows =? 0) then None
+  else match reshape_csr m (s_nr m / rows) rows with
+       | Some t => Some (transpose_csr t) | None => None end.
+
 (* ------------------------------------------------------------------ dia *)
 Record dia := { a_nr : nat; a_nc : nat; a_diags : list (Z * list C) }.
 
@@ -451,10 +466,13 @@ Definition den_dia_sum (a : dia) (i j : nat) : C :=
 Definition wf_dia (a : dia) : Prop :=
   NoDup (map fst (a_diags a)) /\ forall d, In d (a_diags a) -> length (snd d) = a_nc a.
 
-(* dense.pyx::from_dia = Dense(matrix.to_array()) : C ordered *)
+(* dense.pyx::from_dia = Dense(matrix.to_array()): a C-ordered NumPy array;
+   Dense.__init__ takes the flag from PyArray_IS_F_CONTIGUOUS, which also
+   holds for a single row or column *)
 Definition dense_from_dia (a : dia) : dense :=
-  {| d_nr := a_nr a; d_nc := a_nc a; d_fortran := false;
-     d_data := tabulate (a_nr a) (a_nc a) false (den_dia a) |}.
+  let f := (a_nr a =? 1) || (a_nc a =? 1) in
+  {| d_nr := a_nr a; d_nc := a_nc a; d_fortran := f;
+     d_data := tabulate (a_nr a) (a_nc a) f (den_dia a) |}.
 
 (* dia.pyx::from_dense (before tidyup_dia): all nr+nc-1 diagonals, offsets
    -(nr-1) .. nc-1, slot col of diagonal k holds matrix[col - off, col] *)
@@ -784,6 +802,8 @@ Definition G_reshape_csr := reshape_csr G.
 Definition G_reshape_dense := reshape_dense G g0.
 Definition G_column_stack_csr := column_stack_csr G.
 Definition G_column_stack_dense := column_stack_dense G g0.
+Definition G_column_unstack_dense := column_unstack_dense G.
+Definition G_column_unstack_csr := column_unstack_csr G.
 Definition G_dense_from_dia := dense_from_dia G g0.
 Definition G_dia_from_dense_full := dia_from_dense_full G g0.
 Definition G_csr_from_dia := csr_from_dia G g0 gadd gis0.
